@@ -26,9 +26,12 @@ def main():
             elif r.get("rc") == 2:
                 caught.append("%s: inconclusive (exit 2)" % prop)
         summary = m.get("summary") or ""
-        rows.append((name, m.get("property"), ", ".join(os.path.basename(f) for f in files), summary,
-                     "yes" if m.get("verify", {}).get("confirmed") else "NO", "; ".join(caught) or "**missed**"))
-    print("| seed | property | files | change / what it needs | confirmed | caught by |")
+        first = str(m.get("first_version_of_checks", ""))
+        first = "caught" if first.startswith("caught") else ("missed" if first.startswith("missed") else (
+            "exit 2" if first.startswith("exit 2") else "n/m"))
+        rows.append((name, ", ".join(os.path.basename(f) for f in files), summary,
+                     "yes" if m.get("verify", {}).get("confirmed") else "NO", first, "; ".join(caught) or "**missed**"))
+    print("| seed | files | change / what it needs | confirmed | checks as they were | caught now by |")
     print("|---|---|---|---|---|---|")
     for r in rows:
         print("| " + " | ".join(str(x).replace("|", "/") for x in r) + " |")
